@@ -16,7 +16,7 @@ def _register(opcode, variant, shards, expect):
     def ob(v, _opcode=opcode, _variant=variant):
         treeops.step(v, _opcode, _variant, "frame")
     ob.__doc__ = "One step of %s on universe %s: if it raises, the snapshot of the universe is unchanged." % (opcode, variant)
-    obligation("C06", name, shards=shards, budget={"quick": 240, "thorough": 900},
+    obligation("C06", name, shards=shards, budget={"quick": 600, "thorough": 1500},
                expect=[e for e in expect if e == "raised"], bounds=BOUNDS)(ob)
 
 
@@ -31,16 +31,20 @@ from . import common as C  # noqa: E402
 from ..vars import Violation  # noqa: E402
 
 
-def _register_value(opcode, shards):
+def _register_value(opcode, shards, tiers):
     def ob(v, _opcode=opcode):
         valueops.step(v, _opcode, "frame")
     ob.__doc__ = "One step of Property.%s: if it raises, dtype and values are unchanged." % opcode
-    obligation("C06", "values_" + opcode, shards=shards, budget={"quick": 300, "thorough": 900},
+    obligation("C06", "values_" + opcode, shards=shards, budget={"quick": 600, "thorough": 1500}, tiers=tiers,
                expect=["raised"], bounds="see C05: same pre-states and arguments, frame assertion only")(ob)
 
 
-for _op in ("set_values", "set_dtype", "append", "extend", "insert", "setitem", "merge"):
-    _register_value(_op, 17)
+# The C05 obligations assert the same frame condition on every refusal (valueops.step compares dtype and
+# values in both modes); the quick tier of C06 therefore repeats only the cheaper half of the value opcodes.
+for _op, _tiers in (("set_values", ("thorough",)), ("set_dtype", ("quick", "thorough")),
+                    ("append", ("quick", "thorough")), ("extend", ("thorough",)), ("insert", ("thorough",)),
+                    ("setitem", ("quick", "thorough")), ("merge", ("quick", "thorough"))):
+    _register_value(_op, 17, _tiers)
 
 
 BAD_CARDS = ["bad", (2, 1), -1, (1, 2, 3), 1.5, ("a", 1)]
